@@ -87,14 +87,23 @@ def _writer(ctx, rm, pkg):
 
 
 def _reader(ctx, pkg):
-    fn = pkg.method("Reaction", "_parse_string")
+    pkg.method("Reaction", "_parse_string")
     ctx.saw(RFILE, "Reaction._parse_string")
+    # the reader with the procedures it may have been split into put back (the species builder stays the primitive it is)
+    fn = pkg.expanded("Reaction", "_parse_string", keep=("_create_species",))
     fl = Flow(fn, RFILE)
     stores = {}
     for f in fl.facts:
         if f.kind == "attrstore" and f.extra.get("obj") == SELF:
             stores[f.target] = f
-    return {"fn": fn, "flow": fl, "stores": stores}
+    return {"fn": fn, "flow": fl, "stores": stores, "opaque": _opaque_self_calls(fn, ("_create_species",))}
+
+
+def _opaque_self_calls(fn, known=()):
+    """names of the private methods still CALLED through self/cls in an expanded function (helpers that could not be put back):
+    what they assign is not visible, so "never assigned" is not a conclusion"""
+    return sorted({c.func.attr for c in ast.walk(fn) if isinstance(c, ast.Call) and isinstance(c.func, ast.Attribute) and isinstance(c.func.value, ast.Name)
+                   and c.func.value.id in ("self", "cls") and c.func.attr.startswith("_") and not c.func.attr.startswith("__") and c.func.attr not in known})
 
 
 def _split_src(v, total=None):
@@ -226,7 +235,10 @@ def _r1_r2(ctx, w, r):
     for attr in ("idxfromfile", "alpha", "beta", "gamma", "temp_min", "temp_max", "reaction_type", "source"):
         f = st.get(attr)
         if f is None:
-            ctx.bad("R1", f"reader:{attr}", R, f"the reader never assigns self.{attr}")
+            if r.get("opaque"):
+                ctx.unrec("R1", f"reader:{attr}", R, f"no assignment of self.{attr} is visible in the reader, but it calls helpers that are not understood: {r['opaque'][:3]}")
+            else:
+                ctx.bad("R1", f"reader:{attr}", R, f"the reader never assigns self.{attr}")
             continue
         ln, k, wraps = _split_src(simp(f.value), total)
         if ln is None:
@@ -721,8 +733,13 @@ def _r6(ctx, pkg):
                       "leaves the OLD reaction file next to NEW sources", expected="self.write(reaction_file, 'naunet') unconditionally before the configuration is written",
                       found="write nested under a condition whose other arm continues")
     ci = pkg.cls("NetworkConfiguration")
-    init = ci.methods["__init__"]
     ctx.saw(CONF, "NetworkConfiguration.__init__")
+    # (the constructor with the procedures it may have been split into put back)
+    init = pkg.expanded("NetworkConfiguration", "__init__") if "__init__" in ci.methods else None
+    if init is None:
+        ctx.missing("R6", "NetworkConfiguration.__init__", (CONF, ci.node.lineno), "the exported configuration has no constructor of its own")
+        return
+    opaque_init = _opaque_self_calls(init)
     # by value: what is stored into the two attributes (a literal list, however it is spelled / named on the way)
     fl = Flow(init, CONF, consts=ratemodel(ctx.tree).module_consts(CONF))
     named = {}
@@ -777,7 +794,10 @@ def _r6(ctx, pkg):
                   f"the exported table holds {attr} of every surface species of the network (values set through the API included)",
                   expected=f"{{s.name: s.{attr} for s in network.species if s.is_surface}}", found=found)
     for tgt, what in (("_bindingenergy", "binding energies"), ("_photonyield", "yields")):
-        ctx.check(tgt in stv, "R6", f"NetworkConfiguration:{tgt}", (CONF, init.lineno), f"the exported {what} are that table")
+        if tgt not in stv and opaque_init:
+            ctx.unrec("R6", f"NetworkConfiguration:{tgt}", (CONF, init.lineno), f"no assignment of self.{tgt} is visible, but the constructor calls helpers that are not understood: {opaque_init[:3]}")
+        else:
+            ctx.check(tgt in stv, "R6", f"NetworkConfiguration:{tgt}", (CONF, init.lineno), f"the exported {what} are that table")
 
 
 MUTANTS = [
@@ -961,3 +981,16 @@ MUTANTS.append({"name": "writer-percent-format-fixed-point", "file": RFILE, "old
 
 BENIGN.append({"name": "export-file-joined-inline", "file": NET, "old": '        self.write(reaction_file, "naunet")\n', "new": '        self.write(format="naunet", filename=path.joinpath("reactions.naunet"))\n'})
 MUTANTS.append({"name": "export-inline-other-name", "file": NET, "old": '        self.write(reaction_file, "naunet")\n', "new": '        self.write(format="naunet", filename=path.joinpath("reaction.naunet"))\n', "rules": ["R6"]})
+
+_RD_DEF = '    def _parse_string(self, react_string: str) -> None:\n'
+
+
+def _rd_procedure(second, third):
+    """the numeric columns converted by a helper procedure of the class"""
+    return [{"file": RFILE, "old": _RD_FLOATS_OLD, "new": '        self._read_numbers(a, b, c, lt, ut)\n'},
+            {"file": RFILE, "old": _RD_DEF, "new": '    def _read_numbers(self, alpha, beta, gamma, tmin, tmax) -> None:\n        self.alpha = float(alpha)\n        self.beta = float(' + second + ')\n'
+             '        self.gamma = float(' + third + ')\n        self.temp_min = float(tmin)\n        self.temp_max = float(tmax)\n\n' + _RD_DEF}]
+
+
+BENIGN.append({"name": "reader-numbers-by-procedure", "edits": _rd_procedure("beta", "gamma")})
+MUTANTS.append({"name": "reader-procedure-beta-gamma-swapped", "edits": _rd_procedure("gamma", "beta"), "rules": ["R1"]})
